@@ -43,7 +43,6 @@ def resTok : Res1 → String
   | .val v => dumpVal v
   | .assigned b v => (if b then "1:" else "0:") ++ dumpVal v
   | .acc dn v => if dn then "1:null" else "1:" ++ accData v
-  | .guard => "g"
   | .dataNull => "n"
   | .item n none => "sz" ++ toString n ++ ":0"
   | .item n (some v) => "sz" ++ toString n ++ ":" ++ dumpVal v
@@ -114,8 +113,8 @@ def parseOp (w : String) : Option Op :=
   | some "araw" => do pure (.araw (← n 1) (optBytes (← a[2]?)))
   | some "anull" => do pure (.anull (← n 1))
   | some "vdump" => do pure (.vdump (← n 1))
-  | some "acc" => do pure (.acc (← n 1) (← accOf (← a[2]?)) true)
-  | some "accu" => do pure (.acc (← n 1) (← accOf (← a[2]?)) false)
+  -- `accu` (once "the accessor without the probe's null guard") is kept as a synonym: there is no guard any more
+  | some "acc" | some "accu" => do pure (.acc (← n 1) (← accOf (← a[2]?)))
   | some "tabitem" => do pure (.tabitem (← n 1) (← n 2) (← n 3))
   | some "tupitem" => do pure (.tupitem (← n 1) (← n 2) (← n 3))
   | some "eparse" => do pure (.eparse (← n 1) (← n 2) (← exprText (← a[4]?)))
